@@ -19,5 +19,6 @@ def run(e, R, tier):
     R.run_rules(e, [
         T.r_rt_table,
         T.r_rt_loop,
+        T.r_rt_sweep,
         T.r_rt_proto,
     ])
